@@ -174,6 +174,24 @@ def main(tier):
             meta[rec["id"]] = dict(kind="float", fabric=sc["fab"], regime=sc["regime"], cls=sc["ori"], scen=sc)
             records.append(rec)
             chk.count(("scen", json.dumps(sc, sort_keys=True), rep))
+    # ---- every grain count: the cyclic aggregates of the exact cases (harness/sizesweep.py), some copies without volume
+    from harness import sizesweep
+
+    nmax = 16384 if quick else 40000
+    sweep, table = sizesweep.run(cases, nmax, [PAR], zero_every=7, companions=True)
+    for r in sweep:
+        rec = dict(exc="None", finite=True, skew_e12=0, sum_e12=0, deadOK=True, linM_e12=0, linPhi_e12=0, m0OK=True, growMismatch=0, id=len(records))
+        if "bad" in r:
+            rec["finite"] = False
+            if r["bad"].startswith("raised-"):
+                rec["exc"] = r["bad"][7:]
+        else:
+            rec.update(skew_e12=cap(r["skew"] * 1e12), sum_e12=cap(r["sum"] * 1e12), deadOK=r["dead_ok"], growMismatch=r["grow_mismatch"],
+                       linM_e12=cap(r.get("linM", 0.0) * 1e12), linPhi_e12=cap(r.get("linPhi", 0.0) * 1e12), m0OK=r.get("m0OK", True))
+        meta[rec["id"]] = dict(kind="sweep", fabric=r["fab"], regime=r["regime"], cls="cyclic", n=r["n"], base=table[(r["fab"], r["regime"])]["case"])
+        records.append(rec)
+        chk.count(("sweep", r["n"], r["regime"]))
+    chk.cov["size_sweep"] = dict(sizes=f"every grain count 1..{nmax}", regimes=[4, 6], calls=len(sweep), zero_volume_copies="every 7th copy", companions="every third count: linearity in M*, in the phase fraction, M* = 0 (cycling)")
     for r in records:
         for k in ("skew_e12", "sum_e12", "linM_e12", "linPhi_e12"):
             if r["exc"] == "None" and r["finite"]:
@@ -193,11 +211,21 @@ def main(tier):
     rejects, jres = judge(records)
     chk.add_tlc("RatesJudge", jres, f"{len(records)} recorded calls judged")
     chk.cov["traces_validated_against_impl"] = len(records)
+    swept = {}
     for rj in rejects:
         m = meta[rj["id"]]
+        if m["kind"] == "sweep":
+            for clause in rj["clauses"]:
+                swept.setdefault((clause, m["regime"]), []).append(rj["id"])
+            continue
         for clause in rj["clauses"]:
             sig = dict(clause=clause, fabric=m["fabric"], cls=m["cls"], kind=m["kind"])
             chk.violation(sig, f"derivatives on a {m['kind']} {m['cls']} case of fabric {m['fabric']}, regime {m['regime']}: {clause}", dict(meta=m, measures=records[rj["id"]]))
+    for (clause, regime), ids in sorted(swept.items()):
+        sizes = sorted(meta[i]["n"] for i in ids)
+        chk.violation(dict(clause="size-sweep-" + clause, regime=regime),
+                      f"derivatives on the cyclic aggregate of an exact case: {clause} at {len(sizes)} grain count(s), first {sizes[:8]} (regime {regime})",
+                      dict(sizes=sizes[:200], first=dict(meta=meta[ids[0]], measures=records[ids[0]]), how="harness.sizesweep.aggregate(base, n, zero_every=7)"))
     # negative controls
     good = next(r for r in records if r["exc"] == "None" and r["finite"])
     bad = [dict(good, id=0, skew_e12=5000), dict(good, id=1, sum_e12=2000), dict(good, id=2, deadOK=False), dict(good, id=3, exc="ZeroDivisionError"), dict(good, id=4, growMismatch=1), dict(good, id=5)]
